@@ -6,7 +6,7 @@ from typing import Dict, List, Optional
 
 from ..core import Ctx
 from ..model import dotted, kwarg, norm, walk_no_nested
-from .common import assigned_value, bool_equiv, enclosing, expand_locals, pargs, resolve_local
+from .common import assigned_value, bool_equiv, conditions_at, enclosing, expand_locals, pargs, resolve_local
 
 ROLES = ("annotator", "label", "start", "end")
 
@@ -189,24 +189,35 @@ def run(ctx: Ctx):
             return
         T = tloops[0]
         tn = T.target.id
-        flt = [s for s in T.body if isinstance(s, ast.If) and len(s.body) == 1 and isinstance(s.body[0], ast.Continue)]
-        okf = len(flt) == 1 and bool_equiv(flt[0].test, ast.parse(f"selected_tiers is not None and {tn} not in selected_tiers", mode="eval").body) is True
-        ctx.check(okf, "R-C18-4", g, flt[0] if flt else T, "a tier is skipped iff selected_tiers is given and does not contain it",
-                  bad_detail="tier selection differs from `selected_tiers is not None and tier not in selected_tiers`", key=f"{qn}:filter")
-        inner = [L for L in T.body if isinstance(L, ast.For)]
+        inner = [L for L in ast.walk(T) if isinstance(L, ast.For) and L is not T and not any(isinstance(P, ast.For) and P is not T and P is not L and
+                                                                                          any(L is y for y in ast.walk(P)) for P in ast.walk(T))]
         if len(inner) != 1:
             ctx.undecided("R-C18-4", g, T, "loop over the tier's annotations not found", key=f"{qn}:inner")
             return
         I = inner[0]
+        # the condition under which the tier's annotations are read at all (guard clause or enclosing if, either polarity)
+        conds = [(t_, tr) for (t_, tr) in conditions_at(g.node, I) if any(t_ is y for y in ast.walk(T))]
+        reached = ast.BoolOp(op=ast.And(), values=[ast.Constant(value=True)] + [t_ if tr else ast.UnaryOp(op=ast.Not(), operand=t_) for t_, tr in conds])
+        want_reached = ast.parse(f"not (selected_tiers is not None and {tn} not in selected_tiers)", mode="eval").body
+        okf = bool_equiv(reached, want_reached) is True
+        ctx.check(okf, "R-C18-4", g, conds[0][0] if conds else T, "a tier is skipped iff selected_tiers is given and does not contain it",
+                  bad_detail="tier selection differs from `selected_tiers is not None and tier not in selected_tiers`", key=f"{qn}:filter")
         ctx.check(inner_src_ok(g, I, tn), "R-C18-4", g, I, "iterates the annotations of that tier", key=f"{qn}:source")
         body = list(I.body)
-        skips = [s for s in body if isinstance(s, ast.If) and len(s.body) == 1 and isinstance(s.body[0], ast.Continue)]
-        for s in skips:
-            ctx.check(allow_skip is not None and norm(s.test) == allow_skip.replace("{interval}", norm(I.target)), "R-C18-4", g, s,
-                      "named exception: TextGrid interval tiers contain filler intervals with an empty mark, which are skipped",
-                      bad_detail=f"annotations are skipped on `{norm(s.test)}`: not every non-empty interval of the selected tiers becomes a unit",
-                      key=f"{qn}:skip")
+        # annotations that are skipped: a guard clause `if c: continue`, or the rest of the body wrapped in `if not c:`
+        skip_tests = []
+        for s in [s for s in body if isinstance(s, ast.If) and len(s.body) == 1 and isinstance(s.body[0], ast.Continue) and not s.orelse]:
+            skip_tests.append((s.test, s))
             body.remove(s)
+        while len(body) == 1 and isinstance(body[0], ast.If) and not body[0].orelse and norm(body[0].test) not in ("use_tier_as_annotation", "not use_tier_as_annotation"):
+            skip_tests.append((ast.UnaryOp(op=ast.Not(), operand=body[0].test), body[0]))
+            body = list(body[0].body)
+        for t_, s in skip_tests:
+            allowed = allow_skip is not None and bool_equiv(t_, ast.parse(allow_skip.replace("{interval}", norm(I.target)), mode="eval").body) is True
+            ctx.check(allowed, "R-C18-4", g, s,
+                      "named exception: TextGrid interval tiers contain filler intervals with an empty mark, which are skipped",
+                      bad_detail=f"annotations are skipped on `{norm(t_)}`: not every non-empty interval of the selected tiers becomes a unit",
+                      key=f"{qn}:skip")
         # evaluate the body once per value of use_tier_as_annotation: straight-line locals are substituted, the flag picks the branch
         import copy as _copy
 
